@@ -28,10 +28,10 @@ FUNCTIONAL = False      # the property fixes == / != / hash-equality, not hash v
 
 LEVEL_TEXT = ("Lean theorems about a transcription of Bits.__eq__/__ne__ (promotion by _create_from_bitstype: token strings of 0b/0x/0o literals, "
               "bytes-likes, BytesIO, file objects, bitarray, array, iterables by truthiness; TypeError -> False), BitStore.__eq__/tobytes/__len__/"
-              "frombuffer and Bits.__hash__ (whole value up to T bits, else self[:A] + self[-B:] through the msb0 and lsb0 slice arithmetic), for "
+              "frombuffer and Bits.__hash__ (whole value up to T bits, else _absolute_slice(0, A) + _absolute_slice(len - B, len) through getslice_msb0), for "
               "ALL thresholds T, A, B, lengths, classes, positions: == is true exactly when the bit lists agree (for every store a constructor can "
               "produce), is an equivalence, ignores class and pos, != is its negation, non-promotable types give False; the hashed key is a function "
-              "of the bit list alone (equal bits => equal key, in both bit-numbering modes), is injective up to T bits, and the mutable classes are "
+              "of the bit list alone (equal bits => equal key, identical under both settings of options.lsb0), is injective up to T bits, and the mutable classes are "
               "unhashable; set/dict membership coincides with equality of bits. Correspondence: pairs/triples over 4 classes x "
               "25 construction routes x pos x lengths 0..17 and around 2000/2800/3600/5000, one-bit differences inside/outside the sampled ends, "
               "zero-padding near misses, every promotable and non-promotable operand kind, set/dict membership, both modes; the thresholds are read "
@@ -43,7 +43,7 @@ LEVEL_NOTE = ("Trusted: Lean kernel (+propext, Classical.choice, Quot.sound); CP
 TECHNIQUE = "Lean 4 proof (equivalence, hash key is a function of the bits for all thresholds, toBytes injectivity) + differential correspondence with key capture"
 
 # ------------------------------------------------------------------------------------------------ source extraction
-PINNED_HASH_SHAPE = "4daad91c16bcf2b7ec3d592de0b1b92e96f566af"
+PINNED_HASH_SHAPE = "7f0bf98e739cdee924f68ecdb74e76386a96200f"     # /repo 42091e9: _absolute_slice(0, A) + _absolute_slice(len - B, len)
 DEFAULT_PARAMS = (2000, 800, 800)
 
 
@@ -77,9 +77,10 @@ def _hash_shape(path):
 
 
 _dump, _consts = _hash_shape(os.path.join(REPO, "bitstring", "bits.py"))
+# int literals in source order: T (threshold), 0 and A (first slice), B (len - B)
 HASH_SHAPE_OK = (_dump is not None and hashlib.sha1(_dump.encode()).hexdigest() == PINNED_HASH_SHAPE
-                 and len(_consts) == 3 and all(0 <= c <= 10 ** 6 for c in _consts))
-PARAMS = tuple(_consts) if HASH_SHAPE_OK else DEFAULT_PARAMS
+                 and len(_consts) == 4 and _consts[1] == 0 and all(0 <= c <= 10 ** 6 for c in _consts))
+PARAMS = (_consts[0], _consts[2], _consts[3]) if HASH_SHAPE_OK else DEFAULT_PARAMS
 T_, A_, B_ = PARAMS
 RULE = ("cases = corpus + known-finding witnesses + exhaustive small domains + seeded random (harness/props/C13.py gen); distinct = distinct case "
         "lines; non-trivial = at least one operand non-empty. Bits.__hash__ shape %s; thresholds read from the source: T=%d A=%d B=%d%s"
@@ -350,6 +351,22 @@ def _hrel(eq: str, ha, hb) -> str:
     return "-"
 
 
+def _cross_mode(objs, lsb0) -> bool:
+    """hash(x) is the same with options.lsb0 on and off, evaluated in both orders, for every hashable object."""
+    for x in objs:
+        with options(lsb0=lsb0):
+            h1 = _hash(x)
+        with options(lsb0=not lsb0):
+            h2 = _hash(x)
+        with options(lsb0=lsb0):
+            h3 = _hash(x)
+        with options(lsb0=not lsb0):
+            h4 = _hash(x)
+        if not (h1 == h2 == h3 == h4):
+            return False
+    return True
+
+
 def _state(x):
     return (wire(x), getattr(x, "pos", None), type(x).__name__)
 
@@ -401,6 +418,11 @@ def _execute(f):
                 except TypeError:
                     S, N = "U", "U"
                 out = "ok %s %s %s" % (L, S, N)
+            if op == "member" and S in ("T", "F"):
+                # a set / dict filled in one mode is searched in the other
+                with options(lsb0=not lsb0):
+                    extra["cross_mode_lookup"] = ("T" if b in st else "F") + ("T" if b in d else "F")
+        extra["cross_mode"] = _cross_mode(objs, lsb0)
         extra["unchanged"] = [_state(x) for x in objs] == before
     elif op in ("prom", "nonprom"):
         a = build(f[3])
@@ -450,7 +472,8 @@ def _execute(f):
                     # not called through a visible hash((bytes, int)): rebuild the key from the public API
                     try:
                         n = len(a)
-                        k2 = (a.tobytes(), n) if n <= T_ else ((a[:A_] + a[-B_:]).tobytes(), n)
+                        with options(lsb0=False):
+                            k2 = (a.tobytes(), n) if n <= T_ else ((a[:A_] + a[n - B_:]).tobytes(), n)
                         if hash(k2) == h[1]:
                             key = k2
                     except Exception:                   # noqa: BLE001
@@ -460,6 +483,21 @@ def _execute(f):
                 extra["hash_ref_equal"] = (_hash(ref)[1] == h[1])
                 extra["eq_ref"] = _tf(lambda: a == ref) + _tf(lambda: ref == a)
                 extra["in_set_of_ref"] = _tf(lambda: a in {ref})
+                # the captured key under the other setting of options.lsb0, then under this one again
+                keys = []
+                for m in (not lsb0, lsb0, not lsb0):
+                    seen2 = []
+                    with options(lsb0=m):
+                        bb.hash = lambda x, seen2=seen2: (seen2.append(x), builtins.hash(x))[1]
+                        try:
+                            hv = _hash(a)
+                        finally:
+                            del bb.hash
+                    keys.append((hv, tuple(seen2)))
+                extra["cross_mode"] = all(k[0] == h for k in keys) and len({k[1] for k in keys}) == 1
+                extra["cross_mode_ref"] = _cross_mode([ref], lsb0)
+        if out.startswith("ok") and "cross_mode" not in extra:
+            extra["cross_mode"] = _cross_mode([a], lsb0)
         extra["unchanged"] = _state(a) == before
     else:
         raise ValueError(line)
@@ -496,6 +534,8 @@ def oracle(line: str, out: str, extra: dict):
     tf = lambda c: "T" if c else "F"
     if extra.get("unchanged") is False:
         return "an operand (content, pos or class) changed during comparison / hashing"
+    if extra.get("cross_mode") is False or extra.get("cross_mode_ref") is False:
+        return "hash() of the same object differs between options.lsb0 on and off"
     if op in ("pair", "member", "triple"):
         specs = [f[3] if s == "=" else s for s in f[3:]]
         P = [parse_obj(s) for s in specs]
@@ -537,6 +577,8 @@ def oracle(line: str, out: str, extra: dict):
                 for k in ("dict_get", "dict_in", "frozenset", "set_eq"):
                     if extra.get(k) != tf(e):
                         return f"{k} gives {extra.get(k)}, expected {tf(e)}"
+                if extra.get("cross_mode_lookup") != tf(e) * 2:
+                    return f"lookup in a set/dict filled under the other lsb0 setting gives {extra.get('cross_mode_lookup')}, expected {tf(e) * 2}"
         return None
     if op in ("prom", "nonprom"):
         a = parse_obj(f[3])
